@@ -149,7 +149,11 @@ Qed.
 Lemma cb_ran_terminating : forall s, cb_ran (sdst s) = true -> terminating s = true.
 Proof. intros s. unfold terminating. destruct (sdst s) as [[]|]; simpl; auto. Qed.
 
-Lemma quiet_inner : forall j s, quiet s (step_inner j s).
+Section Fx.
+Variable fx : bool.
+Local Notation step := (Mx.step fx).
+
+Lemma quiet_inner : forall j s, quiet s (step_inner fx j s).
 Proof.
   intros j s. unfold step_inner.
   destruct (nth_error (inners s) j) as [i|] eqn:En; [|apply quiet_refl].
@@ -164,8 +168,11 @@ Proof.
   - destruct (hholder s); [apply quiet_refl|].
     eapply quiet_ext; [apply (quiet_set_inner s j (set_i_pc (ILocked b ok))) | reflexivity..].
     intros i0 H0. rewrite En in H0. inversion H0; subst i0. rewrite Epc. simpl. repeat split; auto; discriminate.
-  - eapply quiet_ext; [apply (quiet_set_inner s j (set_i_pc (IInH b ok))) | reflexivity..].
-    intros i0 H0. rewrite En in H0. inversion H0; subst i0. rewrite Epc. simpl. repeat split; auto; discriminate.
+  - destruct (fx && terminating s).
+    + eapply quiet_ext; [apply (quiet_set_inner s j (set_i_pc IFailRet)) | reflexivity..].
+      intros i0 H0. rewrite En in H0. inversion H0; subst i0. rewrite Epc. simpl. repeat split; auto; discriminate.
+    + eapply quiet_ext; [apply (quiet_set_inner s j (set_i_pc (IInH b ok))) | reflexivity..].
+      intros i0 H0. rewrite En in H0. inversion H0; subst i0. rewrite Epc. simpl. repeat split; auto; discriminate.
   - eapply quiet_ext; [apply (quiet_set_inner s j (set_i_pc (IUnl b ok))) | reflexivity..].
     intros i0 H0. rewrite En in H0. inversion H0; subst i0. rewrite Epc. simpl. repeat split; auto; discriminate.
   - destruct ok.
@@ -296,3 +303,4 @@ Proof.
     destruct (q_inner _ _ Q k i0 E) as (i2 & E2 & A & B & C & D). rewrite Hk in E2. inversion E2; subst i2.
     exists i0. split; auto. unfold started in *. fold (startedp (i_pc i0)). fold (startedp (i_pc i)) in Hst. congruence.
 Qed.
+End Fx.
